@@ -218,7 +218,7 @@ def run(ctx):
                               {"source": c["src"], "text": c["texts"][0], "matches": g["matches_list"][0]})
         nt.add(e)
     # precedence and associativity: minimal and full parenthesisation parse to the same tree
-    trees = [gen_tree(rng, rng.choice([2, 3, 3, 4])) for _ in range(400 if quick else 6000)]
+    trees = [gen_tree(rng, rng.choice([2, 3, 3, 4])) for _ in range(400 if quick else 60000)]
     pc, pm = [], []
     for t in trees:
         for full in (False, True):
